@@ -43,7 +43,7 @@ type Aux struct {
 type Adapter struct {
 	Base    c10gen.Case `json:"base"`
 	HFBase  bool        `json:"hf_base,omitempty"` // the base is the (unmutated) model directory of the case, sent as `files`, instead of a GGUF
-	ViaFrom bool        `json:"via_from"` // base created as a model first and named with `from`; otherwise sent as `files` of the same request
+	ViaFrom bool        `json:"via_from"`          // base created as a model first and named with `from`; otherwise sent as `files` of the same request
 	Rank    int         `json:"rank"`
 	Style   string      `json:"style"`   // peft (lora_A [r,in], lora_B [out,r]) | mlx (lora_a [in,r], lora_b [r,out])
 	Targets []string    `json:"targets"` // projections that get a LoRA pair
@@ -169,7 +169,9 @@ var renameVals = []string{"upper", "dot", "space", "unicode", "double", "bracket
 
 // ------------------------------------------------------------------------------------------- gen
 
-func pick(t *rapid.T, label string, vals []string) string { return rapid.SampledFrom(vals).Draw(t, label) }
+func pick(t *rapid.T, label string, vals []string) string {
+	return rapid.SampledFrom(vals).Draw(t, label)
+}
 
 // genBase draws the base GGUF of the adapter path: well-known keys present with their canonical or
 // another value type, or missing.
@@ -286,14 +288,15 @@ func Gen(t *rapid.T) Case {
 
 func genMut(t *rapid.T, adapter bool) Mut {
 	var m Mut
-	files := []string{"st", "st", "st", "st", "st", "st", "cfg", "cfg", "cfg", "cfg", "tok", "tok", "tok", "spm", "spm", "tokcfg", "stmap", "added", "dir", "dir", "mod"}
+	// (rapid prefers the head of a list: the order interleaves the kinds)
+	files := []string{"cfg", "st", "tok", "spm", "st", "tokcfg", "cfg", "stmap", "added", "st", "dir", "tok", "mod", "st", "cfg", "spm", "st", "dir", "st", "cfg", "st"}
 	if adapter {
-		files = []string{"st", "st", "st", "st", "st", "st", "acfg", "acfg", "acfg", "dir"}
+		files = []string{"st", "acfg", "st", "st", "acfg", "dir", "st", "st", "acfg", "st"}
 	}
 	m.File = pick(t, "mfile", files)
 	switch m.File {
 	case "st":
-		m.Op = pick(t, "stop", []string{"hdrlen", "hdrlen", "off", "off", "off", "dtype", "shape", "shape", "shape", "name", "name", "hdrjson", "trunc", "append", "data"})
+		m.Op = pick(t, "stop", []string{"shape", "off", "name", "hdrlen", "dtype", "hdrjson", "trunc", "shape", "off", "append", "data", "shape", "off", "name", "hdrlen"})
 		m.Idx = rapid.IntRange(0, 3).Draw(t, "fidx")
 		m.T = rapid.IntRange(0, 40).Draw(t, "tidx")
 		switch m.Op {
